@@ -559,6 +559,9 @@ func (f *Frame) scanCallMods(cc *ssa.CallCommon, ms *modSet, seen map[*ssa.Funct
 			ms.all = true
 			return
 		}
+		if fc.ModGhost {
+			ms.tok = true
+		}
 		for _, m := range fc.Modifies {
 			hs, err := f.modifiesHeaps(m, fc, fn, cc)
 			if err != nil {
